@@ -2,6 +2,7 @@
 import TaRs.Lemmas.Core.RelativeStrengthIndex
 import TaRs.Gen.RelativeStrengthIndex
 import TaRs.Lemmas.ExponentialMovingAverage
+import TaRs.Lemmas.Total.RelativeStrengthIndex
 namespace TaRs.Gen.RelativeStrengthIndex
 open TaRs TaRs.Rs
 variable {F : Type} [Scalar F]
@@ -72,25 +73,5 @@ theorem rsiVal_zero (up down : F) (h : Scalar.beq (Scalar.add up down) (Scalar.l
 theorem rsiVal_nonzero (up down : F) (h : Scalar.beq (Scalar.add up down) (Scalar.lit 0 0) = false) :
     rsiVal up down = Scalar.div (Scalar.mul (Scalar.lit 100 0) up) (Scalar.add up down) := by
   simp [rsiVal, h]
-
-theorem nextBar_eq (s : RelativeStrengthIndex F) (b : Bar F) : s.nextBar b = s.next b.close := by
-  unfold nextBar
-  try simp only [gen_helper]
-  cases h : s.next b.close <;> simp [h]
-
-private theorem step_wf (e : ExponentialMovingAverage F) (x : F) (h : ExponentialMovingAverage.WF e) :
-    ExponentialMovingAverage.WF (ExponentialMovingAverage.step e x) := by
-  obtain ⟨r, hr, hw, _⟩ := ExponentialMovingAverage.next_total e x h
-  rw [ExponentialMovingAverage.next_eq] at hr; cases hr; exact hw
-
-theorem next_total (s : RelativeStrengthIndex F) (x : F) (h : WF s) :
-    ∃ r, s.next x = some r ∧ WF r.1 ∧ r.1.period_fn = s.period_fn := by
-  refine ⟨_, next_eq s x, ⟨step_wf _ _ h.up, step_wf _ _ h.down, ?_, ?_⟩, rfl⟩
-  · exact (ExponentialMovingAverage.step_period _ _).trans h.up_period
-  · exact (ExponentialMovingAverage.step_period _ _).trans h.down_period
-
-theorem nextBar_total (s : RelativeStrengthIndex F) (b : Bar F) (h : WF s) :
-    ∃ r, s.nextBar b = some r ∧ WF r.1 ∧ r.1.period_fn = s.period_fn := by
-  rw [nextBar_eq]; exact next_total s b.close h
 
 end TaRs.Gen.RelativeStrengthIndex
